@@ -320,3 +320,34 @@ def find_guards(P, fn, want=None):
         g.cond_text = xstr(n.kids[0], al)
         out.append(g)
     return out
+
+
+# ---------------------------------------------------------------------------------------------
+def range_guarded_expr(cfg, target, text, printer):
+    """Every path entry -> target passes relational tests establishing a lower and an upper bound on the
+    expression whose canonical text (by `printer`) is `text`.  Returns (ok, why)."""
+    flip = {"<": ">", ">": "<", "<=": ">=", ">=": "<="}
+    lower_ok, upper_ok = set(), set()
+    for n in cfg.nodes:
+        if n.kind != "cond" or n.ast is None:
+            continue
+        c = strip(n.ast, casts=False)
+        if c is None or c.k != "BinaryOperator" or c.op not in flip:
+            continue
+        l, r = printer(c.kids[0]), printer(c.kids[1])
+        if l == text:
+            op = c.op
+        elif r == text:
+            op = flip[c.op]
+        else:
+            continue
+        for s, lab in n.succ:
+            if op in ("<", "<="):
+                (upper_ok if lab is True else lower_ok).add((n, s))
+            else:
+                (lower_ok if lab is True else upper_ok).add((n, s))
+    lo = not cfg.path_exists(cfg.entry, target, avoid_edge=lambda a, b, lab: (a, b) in lower_ok)
+    hi = not cfg.path_exists(cfg.entry, target, avoid_edge=lambda a, b, lab: (a, b) in upper_ok)
+    if lo and hi:
+        return True, "range-tested on every path"
+    return False, "missing %s bound test" % "/".join(w for w, ok in (("lower", lo), ("upper", hi)) if not ok)
